@@ -33,6 +33,12 @@ def deviations():
     expect("Assert" in out or "violated" in out or "Error" in out and "No error has been found" not in out, "MCCache with StrictDup = TRUE refuted (known finding D7 is visible in the model)")
 
 
+def proofs():
+    for name in ("MonitorProofs", "FilterNodeProofs", "JoinProofs"):
+        r = vlib.prove(name)
+        expect("obligations proved" in r, "TLAPS: " + r[:120])
+
+
 def judge_tree(path):
     d = vlib.tlc_dir(None)
     cfgp = os.path.join(d, "t.cfg")
@@ -138,6 +144,7 @@ def record_corruptions():
 
 if __name__ == "__main__":
     deviations()
+    proofs()
     trace_corruptions()
     record_corruptions()
     print("SELFTEST " + ("OK" if ok else "FAILED"))
